@@ -356,4 +356,27 @@ def keysDistinct (states props : List String) : Bool :=
   let ks := (allCols states.length props.length).map (renderKey states props)
   ks.eraseDups.length == ks.length
 
+/-! ### wave 9: whose statistics a scenario reads — collectors as objects
+
+Every scenario of a scenario manager owns a `DataCollector` object; `scenario.run()` resets *its* collector and
+records into it, `scenario.statistics()` reads it.  Objects are modelled by identities (`Nat`); the store maps a
+collector identity to the statistics history it holds. -/
+
+abbrev Store (α : Type) := List (Nat × History α)
+
+/-- `scenario.run()` of a scenario whose collector is `cid` and whose run produces the history `h`:
+`data_collector.reset()`, then one record per step. -/
+def writeRun (st : Store α) (cid : Nat) (h : History α) : Store α := (cid, h) :: st.filter (fun x => !decide (x.1 = cid))
+
+/-- the scenarios (collector identity, history of their own run) simulated in the given order. -/
+def runAll (runs : List (Nat × History α)) : Store α := runs.foldl (fun st x => writeRun st x.1 x.2) []
+
+/-- `scenario.statistics()`. -/
+def readStats (st : Store α) (cid : Nat) : History α := (lookupA st cid).getD []
+
+/-- mechanism fact probed on every run: the collectors of the scenarios of one manager are pairwise different
+objects, and none is the collector of the model the manager was registered with. -/
+def collectorsDistinct (cids : List Nat) (modelCid : Option Nat) : Bool :=
+  cids.eraseDups.length == cids.length && (match modelCid with | none => true | some c => !cids.contains c)
+
 end Bptk.C13
